@@ -599,8 +599,17 @@ void ScriptVariable::ArchiveInternal(Archiver& arc)
 {
     arc.ArchiveObjectPosition(this);
 
-    arc.ArchiveEnum(type);
-    switch (type)
+    variableType_e archivedType = type;
+    arc.ArchiveEnum(archivedType);
+
+    if (arc.Loading())
+    {
+        // until the payload is complete the variable owns nothing: an exception thrown by the archive
+        // must not leave a kind whose data pointer was never set (the destructor would follow it)
+        type = variableType_e::None;
+    }
+
+    switch (archivedType)
     {
     case variableType_e::String:
         if (arc.Loading())
@@ -674,6 +683,8 @@ void ScriptVariable::ArchiveInternal(Archiver& arc)
     default:
         break;
     }
+
+    type = archivedType;
 }
 
 void ScriptVariable::CastBoolean()
